@@ -39,6 +39,8 @@ def refused(s):
     sibling shortcut on the system root (Lean: `refused_unchanged` covers `Op.delItem` / `Op.addVia`)"""
     if s.impl_res in H.REFUSALS:
         return True
+    if s.op["op"] == "w.dead" and s.impl_res != "ok":
+        return True      # a call on a node that was removed earlier
     if s.op["op"] == "w.del" and s.impl_res in ("key", "callback"):
         return True
     return s.op["op"] == "w.add" and s.op.get("via") in ("prepend_sibling", "append_sibling") and s.impl_res == "attribute"
